@@ -1,5 +1,6 @@
 SPECIFICATION Spec
 CONSTANTS
+  Ablate = {}
   MaxDepth = 5
   MaxIdx = 3
   Terms = {1, 2}
